@@ -70,7 +70,13 @@ def gen_worklist_cfg(rng, device=None, split_bias=0.5):
         mv = rng.choice([10, 20, 37, 64, 500])
     else:
         mv = rng.choice([333.3, 99.99, 250.5, 950.5, 0.5, 2.5, 12.5])
-    return {"device": device, "max_volume": mv, "auto_split": True, "diti_mode": rng.random() < 0.25}
+    cfg = {"device": device, "max_volume": mv, "auto_split": True, "diti_mode": rng.random() < 0.25}
+    r2 = rng.random()
+    if r2 < 0.08:
+        cfg["flavour"] = "subclass"
+    elif r2 < 0.14 and device == "evo":
+        cfg["flavour"] = "deprecated_worklist"
+    return cfg
 
 
 def gen_worktable(rng, n=None, vclass="int", limits=None, need_trough=False, naming="explicit", small=False):
